@@ -546,7 +546,7 @@ impl Run<'_> {
 
 #[derive(Clone, Debug)]
 struct Fail {
-    /// coarse class: overlap | gap | denotation | coalesce-dup | empty | panic|<file>
+    /// coarse class: overlap | gap | denotation | coalesce-dup | empty | len | panic|<file>
     class: String,
     /// the subject operation after which the state is bad
     op: &'static str,
@@ -558,7 +558,6 @@ struct StateInfo {
     entries: usize,
     key: u64,
     calls: u64,
-    dup_values_before_coalesce: bool,
 }
 
 fn show_entries(w: &World, entries: &[(BDDFunc, ExprRef)], tables: &[u128]) -> String {
@@ -576,6 +575,9 @@ fn oracle(w: &mut World, gc: &GuardCtx, s: &VS, den: &Den, ty: Ty, step: &Step, 
     let op = step.op_name();
     if entries.is_empty() {
         return Err(Fail { class: "empty".into(), op, step: k, what: format!("after [{}] the summary R{} has no entries", h.text(), k + 1) });
+    }
+    if s.len() != entries.len() {
+        return Err(Fail { class: "len".into(), op, step: k, what: format!("after [{}] len() of R{} is {} but the summary has {} entries", h.text(), k + 1, s.len(), entries.len()) });
     }
     let guards: Vec<BDDFunc> = entries.iter().map(|e| e.0).collect();
     let tables = guard_tables(w, gc, &guards);
@@ -671,7 +673,7 @@ fn check_history(w: &mut World, h: &History, check_all: bool) -> Result<StateInf
             return Err(Fail { class: format!("panic|{}", p.file()), op: "expr_to_guard", step: 0, what: format!("expr_to_guard panicked while pre-populating the guard context: {} ({})", p.msg, p.short_loc()) });
         }
     }
-    let mut info = StateInfo { entries: 0, key: 0, calls: 0, dup_values_before_coalesce: false };
+    let mut info = StateInfo { entries: 0, key: 0, calls: 0 };
     for k in 0..n {
         let res = catch(|| run.build(k));
         let s = match res {
@@ -953,7 +955,6 @@ fn visit(w: &mut World, h: &History, path: &[usize], s: &Search, l: &mut Local) 
                 if info.entries >= 2 {
                     l.hashes.push(info.key);
                 }
-                let _ = info.dup_values_before_coalesce;
                 enumerator_facts(h, l);
             }
             Some(successors(h, &s.al))
@@ -1267,17 +1268,6 @@ fn slug(what: &str) -> String {
     out.trim_matches('-').chars().take(48).collect()
 }
 
-fn arg_class(a: Arg) -> &'static str {
-    match a {
-        Arg::New(i) => match NEWS[i as usize].2 {
-            0 => "sym",
-            1 => "atom",
-            _ => "bv",
-        },
-        Arg::Res(_) => "R",
-    }
-}
-
 fn report_history(template: &World, rep: &Report, h: &History, class: &str, order: u64) {
     let min = shrink_history(template, h, class);
     let Some(f) = fails_as(template, &min, class).or_else(|| fails_as(template, h, class)) else {
@@ -1292,7 +1282,7 @@ fn report_history(template: &World, rep: &Report, h: &History, class: &str, orde
     };
     let st = &min.steps[f.step.min(min.steps.len() - 1)];
     let kind = |s: &Step| if matches!(s, Step::Bin(..)) { "bin".to_string() } else { s.short() };
-    let step_sig = format!("{}({})", kind(st), st.args().iter().map(|a| arg_class(*a)).collect::<Vec<_>>().join(","));
+    let step_sig = kind(st);
     let shape = format!("{}{}", if min.pre == 1 { "rev:" } else { "" }, min.steps.iter().map(kind).collect::<Vec<_>>().join(">"));
     let sig = if f.class.starts_with("panic|") {
         // one defect, one signature per operation: the panic message identifies the defect
@@ -1483,7 +1473,7 @@ fn guard_sig(class: &str, what: &str, min: &T, pre: u8) -> String {
     if class.starts_with("panic|") {
         format!("C20|{class}|expr_to_guard|{}", slug(what))
     } else {
-        format!("C20|{class}|expr_to_guard|{}|{}", opaque_kind(min), if pre == 1 { "rev" } else { "fresh" })
+        format!("C20|{class}|expr_to_guard|{}|{}", min.op_name(), if pre == 1 { "rev" } else { "fresh" })
     }
 }
 
